@@ -222,6 +222,7 @@ REWRITE = {
              "PARTIAL: the generator-coupling hypothesis itself, and that the spy's counts stay below these bounds, are checked by runs")],
     "C19": [("PARTIAL: whole interfaces are checked on prefixes",
              "COMPOSED (c19_sync_reader_periodic): the lazy chain of shards over itertools.cycle of the selected paths - the unshuffled repeating synchronous reader - hands over, for every k, example (k mod N) of a single pass. "
+             "CONCURRENT (c19_concurrent_reader_periodic): the unshuffled repeating concurrent reader as a batch machine over itertools.cycle (also tf.data's path for fb/npz) hands over example (k mod N) for every k and batch size, by simulation with the chain of shards over any path stream. "
              "RUST INTERFACE (c19_rust_streams_isolated, c19_rust_stream_periodic, c19_rust_streams_live): any number of RustGenerators sharing the registry of live Rust iterators (Model/Registry.v: control flow regenerated from RustGenerator, "
              "rust/src/lib.rs pinned), advanced and dropped in ANY interleaving: if the random registry keys never repeat, stream i receives complete passes of its own plus a prefix of its current pass (never another stream's example, never a panic), "
              "unshuffled that is element m mod N at position m, and a request is always answered with an example unless the stream was dropped or is non-repeating and complete; with a repeating key isolation fails (c19_rust_key_reuse_breaks_isolation). "
@@ -243,7 +244,7 @@ REWRITE = {
     "C03": [("PARTIAL: order across list files",
              "And (c03_unshuffled_interfaces_in_order) with shuffle=0 the three NumPy interfaces, as compositions regenerated from dataset_iteration.py, return exactly the examples of the selected shards in list order, "
              "independent of thread count, random sequences and pool completion order. And over whole histories (c03_session_block_in_order): whatever sessions precede and follow, the shards a filler session closed for a split appear contiguously, "
-             "in close order and with exactly the written examples, in the depth-first shard list of that split. Every pass of the Rust interface likewise (c03_rust_pass_in_order). PARTIAL: the order of a multi-writer call's directories, order across list files")],
+             "in close order and with exactly the written examples, in the depth-first shard list of that split. Every pass of the Rust interface likewise (c03_rust_pass_in_order). Over ANY stream of paths the unshuffled concurrent reader (batch machine, any batch size) hands over at every position what the synchronous reader hands over (c03_concurrent_reader_equals_sync_reader). PARTIAL: the order of a multi-writer call's directories, order across list files")],
 }
 for _pid, _subs in REWRITE.items():
     for _old, _new in _subs:
